@@ -8,6 +8,8 @@ package main
 // UnwrapTree / HasCycle / Walk / UnwrapTreeFrom are printed as a Coq term of type C06.case.
 
 import (
+	"errors"
+	"log/slog"
 	"encoding/json"
 	"fmt"
 	"reflect"
@@ -472,6 +474,44 @@ func c06Pairs(ps [][2]int) string {
 
 // runC06 builds the graph, runs the library and prints the case.  ok=false: the
 // description is invalid, or the observed tree is larger than maxTree (the case is skipped).
+// c06LogNodes counts the nodes of a resolved Node.LogValue: the value itself plus, recursively,
+// the entries of its "causes" member
+func c06LogNodes(v any, depth int) int {
+	if depth > 64 {
+		return 1
+	}
+	var causes any
+	switch x := v.(type) {
+	case slog.Value:
+		x = x.Resolve()
+		if x.Kind() == slog.KindGroup {
+			for _, a := range x.Group() {
+				if a.Key == "causes" {
+					causes = a.Value.Resolve().Any()
+				}
+			}
+		} else {
+			return c06LogNodes(x.Any(), depth+1)
+		}
+	case map[string]any:
+		causes = x["causes"]
+	default:
+		return 1
+	}
+	n := 1
+	switch cs := causes.(type) {
+	case []any:
+		for _, c := range cs {
+			n += c06LogNodes(c, depth+1)
+		}
+	case []slog.Value:
+		for _, c := range cs {
+			n += c06LogNodes(c, depth+1)
+		}
+	}
+	return n
+}
+
 func runC06(d c06Desc, maxTree int) (Case, bool) {
 	if !c06Valid(d) {
 		return Case{}, false
@@ -523,9 +563,33 @@ func runC06(d c06Desc, maxTree int) (Case, bool) {
 					}
 				}
 			})
+			guard("Node.LogValue", func() {
+				// the log value of a cause-tree node carries its full subtree (C19), also for nodes flagged
+				// cyclic: as many nodes as Walk yields beneath it
+				for _, n := range nodes {
+					want := 0
+					for range (errdef.Nodes{n}).Walk() {
+						want++
+					}
+					if got := c06LogNodes(slog.AnyValue(n).Resolve(), 0); got != want && panicked == "" {
+						panicked = fmt.Sprintf("Node.LogValue carries %d nodes, the subtree has %d", got, want)
+					}
+				}
+			})
 			guard("UnwrapTreeFrom", func() {
 				var u errdef.Nodes
-				u, utfOK = errdef.UnwrapTreeFrom(e)
+				// through foreign wrappers as well (errors.As order: single %w, errors.Join, multi %w):
+				// the answer is the tree of the first errdef layer, which here is e
+				var via error = e
+				switch (len(d.Nodes) + d.Recv + d.Break) % 4 {
+				case 1:
+					via = fmt.Errorf("w: %w", e)
+				case 2:
+					via = errors.Join(nil, e)
+				case 3:
+					via = fmt.Errorf("%w and %w", errors.New("x"), e)
+				}
+				u, utfOK = errdef.UnwrapTreeFrom(via)
 				if utfOK {
 					budget := c06NodeCap
 					var okc bool
